@@ -160,23 +160,27 @@ Theorem C17_idivmod_exact : forall x y, wf x -> wf y ->
 Proof. exact idivmod_correct. Qed.
 Print Assumptions C17_idivmod_exact.
 
-(* ---- powers ---- *)
+(* ---- powers ----
+   NOTE: as bint.ipow documents, the exponent is read as an UNSIGNED number (uval y): a negative exponent is a
+   huge positive one, not a reciprocal.  The corollary below is the reading "powers of mathematical integers"
+   for the exponents where the two agree (0 <= sval y). *)
 Theorem C17_ipow_exact : forall x y, wf x -> wf y ->
   exists r, ipow x y = Ok r /\ wf r /\ uval r = (uval x ^ uval y) mod 2 ^ BINT_BITS.
 Proof. exact ipow_correct. Qed.
 Print Assumptions C17_ipow_exact.
 
-Theorem C17_upowmod_partial : forall x y m, wf x -> wf y -> wf m ->
-  (uval m = 0 -> upowmod x y m = Err EDivZero) /\
-  (uval m <> 0 -> uval m * uval m <= 2 ^ BINT_BITS ->
-     exists r, upowmod x y m = Ok r /\ wf r /\ uval r = (uval x ^ uval y) mod uval m).
-Proof. exact upowmod_partial. Qed.
-Print Assumptions C17_upowmod_partial.
+Theorem C17_ipow_signed : forall x y, wf x -> wf y -> 0 <= sval y ->
+  exists r, ipow x y = Ok r /\ wf r /\ uval r = (sval x ^ sval y) mod 2 ^ BINT_BITS.
+Proof. exact ipow_signed. Qed.
+Print Assumptions C17_ipow_signed.
 
-Theorem C17_upowmod_refuted : ~ (forall x y m, wf x -> wf y -> wf m -> uval m <> 0 ->
-  exists r, upowmod x y m = Ok r /\ wf r /\ uval r = (uval x ^ uval y) mod uval m).
-Proof. exact upowmod_exact_refuted. Qed.
-Print Assumptions C17_upowmod_refuted.
+(* modular power, exact for every modulus (as repaired in /repo by "fix: bint.upowmod is exact for every modulus":
+   products are formed modulo m by double-and-add, nothing wraps); base and exponent are read unsigned *)
+Theorem C17_upowmod_exact : forall x y m, wf x -> wf y -> wf m ->
+  (uval m = 0 -> upowmod x y m = Err EDivZero) /\
+  (uval m <> 0 -> exists r, upowmod x y m = Ok r /\ wf r /\ uval r = (uval x ^ uval y) mod uval m).
+Proof. exact upowmod_correct. Qed.
+Print Assumptions C17_upowmod_exact.
 
 (* ---- text.  Strings are lists of byte codes.  dval base ds = value of the digit list ds;
    canon base ds v: ds are digits of the base, their value is v, no leading zero (single 0 for v = 0);
